@@ -311,7 +311,9 @@ Qed.
 Lemma step_OPre nv s h d i payload s' : Inv nv s h d -> step s (OPre i payload) = Ok s' ->
   exists r, Inv nv s' (h ++ [r]) d /\ t_id r = precommitted s + 1 /\ committed s' = committed s /\
             acked s' = acked s /\ asize s' = precommitted s + 1 /\ phase_ s' = PIdle /\
-            t_raw r = enc_rec H (precommitted s + 1) (palh s) (t_body r).
+            t_raw r = enc_rec H (precommitted s + 1) (palh s) (t_body r) /\
+            (exists v vo vn hv, nth_error (inflight s) i = Some (v, vo, vn, hv) /\
+                                t_body r = enc_vref v vo vn hv ++ payload).
 Proof.
   intros I E. unfold Protocol.step in E. cbv zeta in E.
   destruct (phase_ s) as [| |] eqn:Eph; cbn [phase_idle negb] in E; try discriminate.
@@ -364,6 +366,7 @@ Proof.
                 (remove_nth (inflight s) i) (a_size a2) (a_latest a2) (a_cnt a2)) = p + 1).
   { unfold precommitted at 1. cbn [committed pbuf]. rewrite app_length. cbn [length]. unfold p, precommitted. lia. }
   exists r. split; [|repeat split; auto].
+  3:{ exists v, vo, vn, hv. split; reflexivity. }
   2:{ cbn [asize]. rewrite Sz2. unfold aht_of; cbn [a_size]. lia. }
   constructor; simp_st; rewrite ?Pn.
   - auto.
